@@ -367,6 +367,10 @@ func c11Run(payload string) string {
 	if s := concSkip(); s != "" {
 		return s
 	}
+	return concDeadline(func() string { return c11RunCase(payload) }, 60*time.Second)
+}
+
+func c11RunCase(payload string) string {
 	c := c11ParseCfg(payload)
 	echo := &c11Digest{}
 	c11Mu.Lock()
